@@ -101,6 +101,13 @@ check("C27", "exploration", "bounded-exhaustive input and history enumeration on
       "(a) every ordered set of <= 3 (quick) / <= 4 (thorough) cards over 72 card variants (entity u/U, four version relations, event dates, document dates) on a real MemoriesTrack, queried for both entity spellings at 8 times: the card returned by get_at_time is never later than t, never a retraction, belongs to the entity, and equals get_current for t at or beyond the latest card. (b) every history of <= 3 (quick) / <= 4 (thorough) steps over {three kinds of card, plain put, mesh node, mesh edge, commit, close+open, read-only view} on a real Memvid: the card list (all fields) and the mesh (as sets) are unchanged by commit, close and reopen.",
       "created_at is fixed so that the fallback effective time is deterministic.", "DESIGN.md §3 C27", "hist")
 
+check("C28", "exploration", "bounded-exhaustive history exploration with cross-handle observation comparison",
+      "Every op sequence up to depth 2 (quick) / 3 (thorough) over {puts, update with new text, metadata-only update, delete, commit, close+open}, with and without the instant index; at the end of each history the full battery (frame table, content hashes, timeline, ranked search hits with ranges and texts for every stored word with and without sketch, vector answers) is taken on the live handle after commit, a reopened handle, a read-only handle and a doctored copy with all indexes rebuilt. Live, reopened and read-only must agree exactly, order included; the doctored copy must agree on frames, timeline, vector answers and on the set of hits per query. After every mutation, a search for every stored word issued before the commit may only return frames that contain it.",
+      "Order is not compared against the doctored copy (BM25 statistics legitimately change when the index is rebuilt from scratch).", "DESIGN.md §3 C28", "hist")
+check("C40", "exploration", "bounded-exhaustive differential exploration of ingestion paths on the real implementation",
+      "Every document sequence of <= 2 (quick) / <= 3 (thorough) over {short text, chunked text, text with embedding, binary} is ingested by plain puts + commit and by every bulk path: begin_batch/end_batch over the grid skip_sync x compression_level {0,1,3} x disable_auto_checkpoint x WAL pre-size {0,128 KiB} (quick: 6 grid points), commit_skip_indexes after each document or after all followed by finalize_indexes. The logical observation of each bulk path (frames and metadata, content hashes, timeline, search answers with and without sketch, vector answers) must equal the plain path's, live and after close+open.",
+      "Differential oracle: no hand-written expected value.", "DESIGN.md §3 C40", "hist")
+
 NOT_APPLICABLE = {}
 
 def main():
